@@ -238,7 +238,7 @@ def paren(ast, rng=None, spell=None):
 
 # ----------------------------------------------------------- generator
 
-def gen(rng, names, depth, nodes=(), binders=True):
+def gen(rng, names, depth, nodes=(), binders=True, renames=True):
     """Random formula text over `names`; `nodes` are integers usable as
     `@n`. Parentheses, spellings, whitespace and comments are random."""
     def ws():
@@ -296,6 +296,8 @@ def gen(rng, names, depth, nodes=(), binders=True):
             body = rec(d - 1)
             s = f'{q}{ws()}{(", " if rng.random() < .7 else ",").join(vs)}:{ws()}{body}'
             return s if rng.random() < 0.5 else f'({s})'
+        if not renames:
+            return atom()
         # renaming: distinct old names, arbitrary new names
         k = rng.randint(1, min(2, len(names)))
         olds = rng.sample(list(names), k)
